@@ -33,7 +33,8 @@ CFG = {
         "harness": ["c11", "c05"],
         "scope": {"c05": {"oracle_only": "newview_for_current_view_from_non_leader|handler panicked", "ignore_k": True}},
         "n": {"quick": [3000, 1200], "thorough": [300000, 12000]},
-        "rule": "each line carries a whole schedule (<= 12 validators out of a pool of 16 real BLS keys, ids = key ranks, random "
+        "rule": "(second harness: the replica scenarios of C05, scoped to the monitors 'current-view new-view processed only from "
+                "view_leader(view)' and 'no panic' — leader election as USED by the state machine.) Each line carries a whole schedule (<= 12 validators out of a pool of 16 real BLS keys, ids = key ranks, random "
                 "listing order, weights small / mid / up to 2^64-1, random eligible subset, both modes, frequency 0 / 1 / small / "
                 "large / u64::MAX) and is one of: new (constructor; ~1/3 of them invalid: duplicate key, zero weight, sum >= 2^64, "
                 "empty, no eligible), leader (one view: small, block boundaries, powers of two, top of u64, random), scan (a run of "
